@@ -115,6 +115,20 @@ func ChainSeeded(format string, d int) *world.Config {
 	return c
 }
 
+// LateInsertSeeded: branch factor 4, int keys {1,4,5,8,9,10,12,13}; 1,5,10,13,4,8,12 inserted in that
+// order (the leaves keep spare capacity in their slices, which an aliasing append would write into)
+// and persisted with a node cache attached; then every history of length <= d.
+func LateInsertSeeded(format string, d int) *world.Config {
+	c := world.IntCfg(4, []int{1, 4, 5, 8, 9, 10, 12, 13}, []interface{}{"a"}, "", format, "big")
+	for _, k := range []int{0, 2, 5, 7, 1, 3, 6} {
+		c.Seed = append(c.Seed, world.Op{Kind: world.OpIns, K: k, V: 0})
+	}
+	c.Seed = append(c.Seed, world.Op{Kind: world.OpPersist})
+	c.MaxDepth = d
+	c.Name = fmt.Sprintf("seeded-late-inserts/%s/depth%d", c.Name, d)
+	return c
+}
+
 // Seeded16: uint keys at the default branch factor 16, 20 of them inserted and persisted (height 1).
 func Seeded16(format string, d int) *world.Config {
 	keys := urange(1, 18)
